@@ -602,3 +602,12 @@ def condition_effects_are_sequenced(ctx):
                 ok = isinstance(v, AObj) and any(f is v or (isinstance(v, AObj) and v.fields.get("wraps") is f) for f in flushed) and uses_cond
                 ctx.check(f"if (<value-producing operation>) with {bname}{' and else' if with_else else ''}: its effect is sequenced with the branch", ok,
                           "the result is the flushed effect that evaluates the condition", f"returns {lab(v)[:50]} (evaluates the condition: {uses_cond}; flushed: {[lab(f)[:20] for f in flushed]})", fn_where(idx, fi))
+
+
+@rule("R06.9", "C06", "the value an operation yields is the one C defines, and an operation that is folded away disappears completely: a call result is ret_val narrowed to the declared return type; dropping the temporary of a dead arm removes its pending effect in both emission orders", min_instances=6)
+def r06_9(ctx):
+    from .c03 import r03_4
+    from .c12 import r12_7
+
+    r03_4(ctx)
+    r12_7(ctx)
